@@ -93,6 +93,8 @@ func concretise(name string, kind string, n int, seed int64) ([]byte, int) {
 		return append([]byte(canon), data(1500-pl)...), pl
 	case "ptr_upper_oid":
 		return []byte(canonPointer(strings.ToUpper(oid), 12345)), pl
+	case "ptr_ext_dash": // an extension whose name uses the other characters keys may use: . and -
+		return []byte(fmt.Sprintf("version https://git-lfs.github.com/spec/v1\next-0-my-ext.v2 sha256:%s\noid sha256:%s\nsize 12345\n", core.Sha([]byte("ext")), oid)), pl
 	case "ptr_ext":
 		return []byte(fmt.Sprintf("version https://git-lfs.github.com/spec/v1\next-0-foo sha256:%s\noid sha256:%s\nsize 12345\n", core.Sha([]byte("ext")), oid)), pl
 	case "ptr_legacy":
